@@ -1066,6 +1066,11 @@ func (s *Stream) appendOutFramesLocked(w *packetWriter, pnum packetNumber, pto b
 			return false
 		}
 		s.out.copy(off, b)
+		if int64(len(b)) < size {
+			// The frame was truncated to fit in the packet,
+			// and does not carry the FIN bit.
+			fin = false
+		}
 		end := off + int64(len(b))
 		if end > s.outmaxsent {
 			s.conn.streams.outflow.consume(end - s.outmaxsent)
